@@ -1,6 +1,6 @@
 (** Exact rational carrier (QArith, reduced after every operation) for executing the models
     inside Coq.  sqrt/log/pow/cos do not exist in Q; models that need them are not run here. *)
-From Coq Require Import ZArith QArith Qreduction Qabs List.
+From Coq Require Import ZArith QArith Qreduction Qabs Qround List.
 From HDC Require Import Base.Ops.
 
 Definition OpsQ : Ops Q := {|
@@ -9,6 +9,9 @@ Definition OpsQ : Ops Q := {|
   fmul := fun x y => Qred (x * y); fdiv := fun x y => Qred (x / y);
   fopp := fun x => Qred (- x); fabs := Qabs; fofZ := inject_Z;
   fltb := fun x y => negb (Qle_bool y x); fleb := Qle_bool; feqb := Qeq_bool;
+  fnonfinite := fun _ => false;
+  frne := fun x => let f := Qfloor x in let r := Qred (x - inject_Z f) in
+                   Some (match Qcompare r (1 # 2) with Lt => f | Gt => (f + 1)%Z | Eq => if Z.even f then f else (f + 1)%Z end);
   fsqrt := fun x => x; flog := fun x => x; fpow10 := fun x => x; fcos := fun x => x |}.
 
 Fixpoint qlist_eqb (a b : list Q) : bool :=
